@@ -27,6 +27,11 @@ type QuoteCase struct {
 	// big before the case proper runs.
 	Rep int `json:"rep,omitempty"`
 	Pre int `json:"pre,omitempty"`
+	// Raw, when non-nil, holds the bytes of an arbitrary string (typically an
+	// INCOMPLETE input: an open quotation or a dangling backslash) that is
+	// passed to Split in the same goroutine first: whatever state that call
+	// leaves in pooled scanners must not reach the calls of the case proper.
+	Raw []int `json:"raw,omitempty"`
 }
 
 func toInts(s string) []int {
@@ -310,6 +315,17 @@ func joinArgument(ss []string, j string, keep *keeper) string {
 }
 
 func runQuote(c QuoteCase, o *vk.Obs) string {
+	if c.Raw != nil {
+		raw := fromInts(c.Raw)
+		ref := refSplit(raw)
+		for rep := 0; rep < 2; rep++ { // twice: the second call meets the first one's leftovers
+			fs, ok := shell.Split(raw)
+			if ok != ref.Complete || !sameFields(fs, ref.Fields) {
+				return fmt.Sprintf("Split(%q) = %s, %v (call %d of 2); the quoting rules give %s, %v", raw, showFields(fs), ok, rep+1, showFields(ref.Fields), ref.Complete)
+			}
+		}
+		o.ClassIf(!ref.Complete, "after_a_Split_of_an_incomplete_input")
+	}
 	if c.Pre > 0 {
 		// a big call first: its own round trip must hold, and it must not
 		// disturb the calls that follow (pooled buffers)
